@@ -375,13 +375,101 @@ func (fc *FuncCtx) copyInto(st *State, dstE ast.Expr, dst, src, n *Term) {
 	fc.writeLoc(st, l, r)
 }
 
+type inlineRet struct {
+	st   *State
+	vals []Val
+}
+
+type inlineFrame struct {
+	sig  *types.Signature
+	rets []inlineRet
+}
+
+// inlineFuncLit executes a call of a function literal (bound to a local variable or written in place) on the
+// caller's state: parameters are bound to the argument values, the body is executed with the enclosing function's
+// loop contracts, every return records its state, and the states are merged. Literals with named results, defer or
+// nested returns through closures are not executed in place (result havoc'd, as before).
 func (fc *FuncCtx) inlineFuncLit(st *State, fl *ast.FuncLit, call *ast.CallExpr) Val {
-	fc.note("call of function literal: result havoc'd")
-	for _, a := range call.Args {
-		fc.evalExpr(st, a)
+	sig, _ := fc.info.TypeOf(fl).(*types.Signature)
+	simple := sig != nil && len(fc.inlineStack) < 2 && sig.Results().Len() <= 1 && !sig.Variadic()
+	if simple && fl.Type.Results != nil {
+		for _, f := range fl.Type.Results.List {
+			if len(f.Names) > 0 {
+				simple = false
+			}
+		}
 	}
-	fc.havocAssigned(st, fl.Body)
-	return fc.havocResult(st, fc.info.TypeOf(call), "flit")
+	if simple {
+		ast.Inspect(fl.Body, func(n ast.Node) bool {
+			switch n.(type) {
+			case *ast.DeferStmt, *ast.GoStmt, *ast.FuncLit:
+				simple = false
+			}
+			return simple
+		})
+	}
+	if !simple {
+		fc.note("call of function literal: result havoc'd")
+		for _, a := range call.Args {
+			fc.evalExpr(st, a)
+		}
+		fc.havocAssigned(st, fl.Body)
+		return fc.havocResult(st, fc.info.TypeOf(call), "flit")
+	}
+	// bind parameters
+	var args []Val
+	for _, a := range call.Args {
+		args = append(args, fc.evalExpr(st, a))
+	}
+	i := 0
+	for _, f := range fl.Type.Params.List {
+		for _, n := range f.Names {
+			if obj, ok := fc.info.Defs[n].(*types.Var); ok && i < len(args) {
+				v := args[i]
+				if v.T != nil {
+					v = Val{T: fc.coerce(st, v, obj.Type()), Typ: obj.Type()}
+				}
+				st.env[obj] = v
+			}
+			i++
+		}
+	}
+	fr := &inlineFrame{sig: sig}
+	fc.inlineStack = append(fc.inlineStack, fr)
+	body := st.clone()
+	f := fc.execBlock(body, fl.Body.List)
+	fc.inlineStack = fc.inlineStack[:len(fc.inlineStack)-1]
+	if f.next != nil && sig.Results().Len() == 0 {
+		fr.rets = append(fr.rets, inlineRet{f.next, nil})
+	}
+	if len(fr.rets) == 0 {
+		// no normal exit (every path panics): nothing continues
+		st.assume(TFalse)
+		return fc.havocResult(st, fc.info.TypeOf(call), "flit")
+	}
+	var rv *types.Var
+	if sig.Results().Len() == 1 {
+		rv = types.NewVar(fl.Pos(), fc.pkg.Types, "flit$result", sig.Results().At(0).Type())
+	}
+	var states []*State
+	for _, r := range fr.rets {
+		if rv != nil && len(r.vals) == 1 {
+			v := r.vals[0]
+			if v.T != nil {
+				v = Val{T: fc.coerce(r.st, v, rv.Type()), Typ: rv.Type()}
+			}
+			r.st.env[rv] = v
+		}
+		states = append(states, r.st)
+	}
+	out := fc.merge(states)
+	var res Val
+	if rv != nil {
+		res = out.env[rv]
+		delete(out.env, rv)
+	}
+	*st = *out
+	return res
 }
 
 // ---------------------------------------------------------------- generic call
